@@ -265,6 +265,10 @@ def oracle(cfg, evs, summ, ptimeout):
                         f'outgoing {r["kind"]} {k} (started at {r["start"]}) is still waiting at '
                         f'{summ["now"]}'))
         elif k in pend and r['kind'] in ('O', 'OB') and r['outcome'] != 'cancelled':
+            # not a caller waiting for a response: still blocked *sending* (send buffer full) and
+            # its own max_send_delay ran out at this very instant (C15: TaskTimeout + abort)
+            if r['outcome'] == 'TaskTimeout' and r['done_at'] == r['start'] + summ['max_send_delay']:
+                continue
             bad.append(('c08:waiter-not-cancelled',
                         f'outgoing {r["kind"]} {k} was waiting when the connection was lost at '
                         f'{summ["lost_at"]} and ended with {r["outcome"]} at {r["done_at"]} instead '
@@ -277,8 +281,10 @@ def oracle(cfg, evs, summ, ptimeout):
         if r['outcome'] == 'pending':
             bad.append(('c08:handler-alive', f'handler {hid} ({r["kind"]}) is still running at {summ["now"]}'))
         elif hid in inbody and r['outcome'] != 'cancelled':
-            overrun = ptimeout is not None and summ['lost_at'] is not None \
-                and summ['lost_at'] >= r['start'] + ptimeout
+            # its processing_timeout fired before it was done (before the loss, or while it was
+            # still reacting to the cancellation): the TaskTimeout path ends it, not a cancellation
+            overrun = ptimeout is not None and r['done_at'] is not None \
+                and r['done_at'] >= r['start'] + ptimeout
             if not overrun:
                 bad.append(('c08:handler-not-cancelled',
                             f'handler {hid} ({r["kind"]}) was running when the connection was '
@@ -421,36 +427,47 @@ def run(ctx):
 
     # lifecycle-model cases: exhaustive short + random
     lts = []
-    maxlen = 4 if ctx.deep else 3
-    alpha = LTS_ALPHA if ctx.deep else LTS_ALPHA_QUICK
     n = 0
-    for ln in range(1, maxlen + 1):
-        for letters in itertools.product(alpha, repeat=ln):
-            for stalled in (False, True):
-                skind = 'rpc' if n % 3 else 'msg'
-                lts.append(({'skind': skind, 'transport': 'rs' if n % 2 == 0 else 'us',
-                             'stalled': stalled}, expand_lts(letters, skind)))
-                n += 1
+    scopes = [(LTS_ALPHA_QUICK, 3)] if not ctx.deep else [(LTS_ALPHA, 3), (LTS_ALPHA_QUICK, 4)]
+    seen = set()
+    for alpha, maxlen in scopes:
+        for ln in range(1, maxlen + 1):
+            for letters in itertools.product(alpha, repeat=ln):
+                if letters in seen:
+                    continue
+                seen.add(letters)
+                for stalled in (False, True):
+                    skind = 'rpc' if n % 3 else 'msg'
+                    lts.append(({'skind': skind, 'transport': 'rs' if n % 2 == 0 else 'us',
+                                 'stalled': stalled}, expand_lts(letters, skind)))
+                    n += 1
     lts += [random_lts_case(ctx.rng) for _ in range(30000 if ctx.deep else 3000)]
     evaluate(ctx, lts, res, 'lifecycle')
-    res['scopes']['lifecycle'] = {'alphabet': alpha, 'max_len': maxlen, 'cases': len(lts)}
+    res['scopes']['lifecycle'] = {'scopes': [[a, m] for a, m in scopes], 'cases': len(lts)}
 
     # crash-point enumeration
-    if True:
-        jobs = crash_cases('rpc', RPC_STEPS_QUICK, 3 if not ctx.deep else 4)
-        jobs += crash_cases('msg', MSG_STEPS_QUICK, 3 if not ctx.deep else 4, start=1)
-        if ctx.deep:
-            jobs += crash_cases('rpc', RPC_STEPS_FULL, 2)
-            jobs += crash_cases('msg', MSG_STEPS_FULL, 2, start=1)
-        else:
-            jobs += crash_cases('rpc', RPC_STEPS_FULL, 1)
-            jobs += crash_cases('msg', MSG_STEPS_FULL, 1, start=1)
-        evaluate(ctx, jobs, res, 'crashpoint_exhaustive')
-        res['scopes']['crashpoint_exhaustive'] = {
-            'rpc_alphabet': RPC_STEPS_QUICK, 'msg_alphabet': MSG_STEPS_QUICK,
-            'max_len': 4 if ctx.deep else 3, 'full_alphabet_max_len': 2 if ctx.deep else 1,
-            'faults': FAULTS, 'runs': len(jobs)}
-    rnd = random_crash_cases(ctx.rng, 120000 if ctx.deep else 6000, 8 if ctx.deep else 6)
+    jobs = crash_cases('rpc', RPC_STEPS_QUICK, 3)
+    jobs += crash_cases('msg', MSG_STEPS_QUICK, 3, start=1)
+    main_faults = ['drop', 'close', 'close2_stalled', 'handler_close', 'abort']
+    if ctx.deep:
+        jobs += [j for j in crash_cases('rpc', RPC_STEPS_QUICK, 4, faults=main_faults)
+                 if len(j[1]) >= 5]
+        jobs += [j for j in crash_cases('msg', MSG_STEPS_QUICK, 4, faults=main_faults, start=1)
+                 if len(j[1]) >= 5]
+        jobs += crash_cases('rpc', RPC_STEPS_FULL, 2)
+        jobs += crash_cases('msg', MSG_STEPS_FULL, 2, start=1)
+    else:
+        jobs += crash_cases('rpc', RPC_STEPS_FULL, 1)
+        jobs += crash_cases('msg', MSG_STEPS_FULL, 1, start=1)
+    evaluate(ctx, jobs, res, 'crashpoint_exhaustive')
+    res['scopes']['crashpoint_exhaustive'] = {
+        'rpc_alphabet': RPC_STEPS_QUICK, 'msg_alphabet': MSG_STEPS_QUICK,
+        'max_len_all_faults': 3, 'max_len_main_faults': 4 if ctx.deep else 3,
+        'main_faults': main_faults,
+        'full_alphabets': [RPC_STEPS_FULL, MSG_STEPS_FULL],
+        'full_alphabet_max_len': 2 if ctx.deep else 1,
+        'faults': FAULTS, 'runs': len(jobs)}
+    rnd = random_crash_cases(ctx.rng, 80000 if ctx.deep else 5000, 8 if ctx.deep else 6)
     evaluate(ctx, rnd, res, 'crashpoint_random')
     res['scopes']['crashpoint_random'] = len(rnd)
     return res.finish(RULE, exhaustive=True)
